@@ -59,6 +59,7 @@ import (
 	"verif/ev"
 	"verif/gen"
 	"verif/ir"
+	"verif/pgen"
 	"verif/sch"
 )
 
@@ -987,6 +988,53 @@ func TestRandom(t *testing.T) {
 		req := ir.Request{Principal: rn.value(w.Req.Principal), Action: rn.value(w.Req.Action), Resource: rn.value(w.Req.Resource), Context: ir.Value{K: ir.KRecord, Fields: rn.fields(w.Req.Context.Fields)}}
 		if !run(sub, r, &Case{Schema: s, Op: "request", Req: &req}, nt, labels...) {
 			rt.Fatalf("C16/random: the validator panicked on a request")
+		}
+	})
+}
+
+// TestTypedPolicies: policies from the type-directed generator (well typed for one request environment of a generated
+// schema, with slips) - they pass the validator's early checks and reach the capability bookkeeping, unions, `has`
+// under `||` / `if`, tags, extension calls. World data generated to conform goes through Entity / Entities / Request.
+func TestTypedPolicies(t *testing.T) {
+	const sub = "typed"
+	ev.SetChecks(ev.Scale(700, 70000))
+	extAsCall := ev.KnownOpen("C16", "nodevalue-literal-panic")
+	rapid.Check(t, func(rt *rapid.T) {
+		rs := sch.GenRSchema(rt)
+		s := sch.Deresolve(rt, rs)
+		r, ok := runResolve(sub, &Case{Schema: s, Op: "resolve"}, false)
+		if !ok {
+			rt.Fatalf("C16/typed: Resolve panicked")
+		}
+		if r == nil {
+			return
+		}
+		envs := rs.Envs()
+		if len(envs) == 0 {
+			return
+		}
+		cache := pgen.Cache{}
+		for i := 0; i < 5; i++ {
+			ei := rapid.IntRange(0, len(envs)-1).Draw(rt, "env")
+			p, slips := pgen.GenPolicy(rt, rs, envs[ei], extAsCall, cache, ei)
+			labels := []string{"typed-policy"}
+			for _, sl := range slips {
+				labels = append(labels, "slip:"+sl)
+			}
+			c := &Case{Schema: s, Op: "policy", Policy: p, ViaJSON: gen.Chance(rt, 20, "viajson")}
+			if !run(sub, r, c, p.Conds != nil, labels...) {
+				rt.Fatalf("C16/typed: the validator panicked on a policy")
+			}
+		}
+		w := sch.GenWorld(rt, rs, envs[rapid.IntRange(0, len(envs)-1).Draw(rt, "wenv")])
+		for _, op := range []string{"entity", "entities"} {
+			if !run(sub, r, &Case{Schema: s, Op: op, Store: w.Store}, true, "conforming-world") {
+				rt.Fatalf("C16/typed: the validator panicked on entities")
+			}
+		}
+		req := w.Req
+		if !run(sub, r, &Case{Schema: s, Op: "request", Req: &req}, true, "conforming-world") {
+			rt.Fatalf("C16/typed: the validator panicked on a request")
 		}
 	})
 }
